@@ -22,7 +22,7 @@ Driver-side relational clauses (on the returned table only):
 Histories (classes history_*): ONE Motl object is expanded, edited IN PLACE (angles via apply_rotation / flip_handedness /
 column assignment / the caller's own DataFrame handle; positions; ids; row order; other fields; the caller-owned offset
 array) and expanded again - every expansion is judged by the call monitors against the list as it is at the time of THAT call.
-Exhaustive sub-space (extra): every n in 1..32 (quick) / 1..64 (thorough) x the six spellings x {generic, on-axis, zero} offset;
+Exhaustive sub-space (extra): every n in 1..64 (both tiers) x the six spellings x {generic, on-axis, zero} offset;
 option-pair grid: spelling x offset container x offset kind x index layout, every combination several times.
 """
 import math
@@ -805,7 +805,7 @@ def run_case(ctx, case):
 
 # ---- exhaustive sub-space: every n x six spellings x {generic, on-axis, zero} offset ------------------------------
 def extra(ctx):
-    nmax = 64 if ctx.tier == "thorough" else 32
+    nmax = 64       # every order the quantifier names, in both tiers: a fault at one single n (e.g. 61) must not depend on the seed
     covered, calls, nondiv = 0, 0, 0
     for n in range(1, nmax + 1):
         rng = ctx.rng(10 ** 6 + n, 7)
